@@ -468,6 +468,32 @@ func (g *Gen) resolveLocal(name string, at *ssa.BasicBlock, h *Heap) (Val, bool)
 			best = d
 		}
 	}
+	// a phi carrying the variable's name in a dominating block is a (re)definition too: if it is later than the
+	// best reference found, it is the variable's value (the variable may simply not be mentioned again before `at`)
+	var bestPhi *ssa.Phi
+	for _, b := range g.fn.Blocks {
+		if b == at || !b.Dominates(at) {
+			continue
+		}
+		for _, in := range b.Instrs {
+			phi, ok := in.(*ssa.Phi)
+			if !ok {
+				break
+			}
+			if phi.Comment != name {
+				continue
+			}
+			if _, ok := g.vals[phi]; !ok {
+				continue
+			}
+			if bestPhi == nil || bestPhi.Block().Dominates(b) {
+				bestPhi = phi
+			}
+		}
+	}
+	if bestPhi != nil && (best == nil || (best.Block() != bestPhi.Block() && best.Block().Dominates(bestPhi.Block()))) {
+		return g.vals[bestPhi], true
+	}
 	if best == nil {
 		return Val{}, false
 	}
